@@ -22,10 +22,32 @@ def mp4():
     return m
 
 
+# how the input reaches the parser and how the options are spelled (set by the harness per case):
+#   reader: "io" = io.BufferedReader over BytesIO; ("window", buffersize, max_buffers) = the library's own
+#           dashlive.utils.buffered_reader.BufferedReader with a small cache window; "data" = that reader
+#           holding the whole input
+#   options: "object" = mp4.Options(...); "dict" = the same as a dict; "iv-bits" = iv_size given in bits
+VARIANT = {"reader": "io", "options": "object", "strict": False}
+
+
 def load(data: bytes, lazy: bool, mode: str = "r", iv: int | None = None, strict: bool = False):
     m = mp4()
-    src = io.BufferedReader(io.BytesIO(data))
-    opts = m.Options(lazy_load=lazy, mode=mode, iv_size=iv, strict=strict)
+    reader = VARIANT["reader"]
+    if reader == "io":
+        src = io.BufferedReader(io.BytesIO(data))
+    else:
+        from dashlive.utils.buffered_reader import BufferedReader
+        if reader == "data":
+            src = BufferedReader(None, data=data)
+        else:
+            src = BufferedReader(io.BytesIO(data), buffersize=reader[1], max_buffers=reader[2], size=len(data))
+    strict = strict or VARIANT["strict"]
+    if VARIANT["options"] == "iv-bits" and iv in (8, 16):
+        iv = iv * 8
+    if VARIANT["options"] == "dict":
+        opts = dict(lazy_load=lazy, mode=mode, iv_size=iv, strict=strict)
+    else:
+        opts = m.Options(lazy_load=lazy, mode=mode, iv_size=iv, strict=strict)
     return m.Mp4Atom.load(src, options=opts, use_wrapper=True)
 
 
